@@ -134,6 +134,8 @@ class VC:
         except RecursionError as e:
             self.undecided.append(Undecided(fnkey, 'UNSUPPORTED: recursion depth'))
             return None
+        for reason in sorted(set(eng.unsupported)):
+            self.undecided.append(Undecided(fnkey, 'UNSUPPORTED: %s' % reason))
         self.path_count += len(paths)
         for pi, p in enumerate(paths):
             tag = 'p' + '.'.join(str(d) for d in p.trail) if p.trail else 'p'
@@ -150,7 +152,8 @@ class VC:
                 self.assumptions.add(a)
         if len(paths) < min_paths:
             self.undecided.append(Undecided(fnkey, 'VACUOUS: only %d paths (expected >= %d)' % (len(paths), min_paths)))
-        return paths
+        # paths that left the modelled subset are not handed to the contract's post-passes
+        return [p for p in paths if p.end != 'unsupported']
 
 
 def short(fnkey):
